@@ -884,7 +884,14 @@ class Sym:
             eff_const = target.endswith(' const')
             if recv is not None and not eff_const:
                 st.effects.append(('call', target, recv, tuple(args)))
-            return [(st, ('call', target, recv, tuple(args)))]
+            t = ('call', target, recv, tuple(args))
+            if recv is not None and eff_const:
+                # an observation of a container made after it was grown in this evaluation is a different value
+                n = sum(1 for e in st.effects if (e[0] == 'emplace' and e[2] == recv)
+                        or (e[0] == 'call' and e[2] == recv and _is_mutator(e[1])))
+                if n:
+                    t = ('after', n, t)
+            return [(st, t)]
         # implicit/defaulted assignment operator: store
         if name == 'operator=' and f.get('implicit'):
             return [(st, recv)]
@@ -1095,6 +1102,18 @@ class Sym:
             st.contents.setdefault(recv, []).append(o)
             return pre + [(st, ('addr', o))]
         raise Unsupported(f'make_node initialiser form {init.get("k")}')
+
+
+_MUTATORS = ('push_back', 'push_front', 'insert', 'insert_or_assign', 'emplace', 'emplace_back', 'emplace_front',
+             'emplace_after', 'insert_after', 'resize', 'clear', 'erase', 'erase_after', 'pop_back', 'pop_front',
+             'assign', 'swap', 'operator=', 'try_emplace', 'splice_after', 'reserve', 'shrink_to_fit')
+
+
+def _is_mutator(fid):
+    q = fid.split('(')[0]
+    name = q.rsplit('::', 1)[-1]
+    name = name.split('<')[0]
+    return name in _MUTATORS
 
 
 def _walk(node):
